@@ -517,12 +517,10 @@ func normalizeValue(
 		return normalizeMapValue(opts, ctx, v)
 	case reflect.Struct:
 		if v, ok := tryTConfig(v); ok {
+			// the embedded config gets its place in the new tree through a header of
+			// its own: the caller's config keeps its path and parent
 			c := v.Addr().Interface().(*Config)
-			ret := cfgSub{c}
-			if ret.Context().parent != ctx.parent {
-				ret.SetContext(ctx)
-			}
-			return ret, nil
+			return cfgSub{&Config{ctx: ctx, metadata: c.metadata, fields: c.fields}}, nil
 		}
 
 		return normalizeStructValue(opts, ctx, v)
